@@ -44,8 +44,10 @@ def noDupKeys (keys : List Nat) : Bool := noDupGo keys 0
 /-- numeric key of a character: its code point (0 if ill-formed) -/
 def ucKey (uc : List Nat) : Nat := (utf8Decode uc).getD 0
 
-/-- numeric key of a mangled name: its last four bytes as a base-256 number -/
-def nameKey (m : List Nat) : Nat := (m.drop 22).foldl (fun a b => a * 256 + b) 0
+/-- numeric key of a mangled name: its last four bytes read as hexadecimal digits (a number below
+`16 * 65536` whatever the bytes are) -/
+def nameKey (m : List Nat) : Nat :=
+  ((m.drop 22).take 4).foldl (fun a b => a * 16 + (if Nat.ble 58 b then (b - 55) % 16 else (b - 48) % 16)) 0
 
 /-- list equality on bytes with the core comparison -/
 def eqBytes : List Nat → List Nat → Bool
